@@ -545,7 +545,7 @@ def to_fpm_and_back_backprop(wavefunction, dx, wavelength, efl, fpm, fpm_dx=None
     if np.iscomplexobj(fpm):
         fpm = fpm.conj()
 
-    Ebbar = -unfocus_fixed_sampling_backprop(wavefunction, fpm_dx, efl, wavelength, dx, fpm_samples)
+    Ebbar = unfocus_fixed_sampling_backprop(wavefunction, fpm_dx, efl, wavelength, dx, fpm_samples)
     intermediate = Ebbar * fpm
     Eabar = focus_fixed_sampling_backprop(intermediate, dx, efl, wavelength, fpm_dx, wavefunction.shape)
     if return_more:
@@ -1256,9 +1256,9 @@ class Wavefront:
         else:
             cbar = dbar
 
-        # minus from Ebefore minus Eafter fpm
         cbarW = Wavefront(cbar, self.wavelength, self.dx, self.space)
         abar = cbarW.to_fpm_and_back_backprop(efl=efl, fpm=fpm, fpm_dx=fpm_dx, method=method)
 
-        abar.data += cbar
+        # minus from Ebefore minus Eafter fpm
+        abar.data = cbar - abar.data
         return abar
